@@ -863,44 +863,61 @@ func checkGuardCoversUseRule(p *core.Program, r *core.Report, ps *types.Named, r
 		// uses: index sites on parameter-derived slices
 		nUse := 0
 		var uncovered []string
-		for _, b := range fn.Blocks {
-			for _, in := range b.Instrs {
-				var base, idx ssa.Value
-				switch x := in.(type) {
-				case *ssa.IndexAddr:
-					base, idx = x.X, x.Index
-				case *ssa.Index:
-					base, idx = x.X, x.Index
-				default:
-					continue
-				}
-				bt := ev.Term(base)
-				path, ok := fieldPath(bt, paramsT)
-				if !ok {
-					continue
-				}
-				nUse++
-				it := ev.Term(idx)
-				// the index must be an induction variable 0..n-1 with n the enforced length
-				var loop *tf.Loop
-				if it.K == tf.KIndVar {
-					loop = it.Loop
-				}
-				n, okN := loopRangeZeroTo(loop)
-				want, has := G[path]
-				site := fmt.Sprintf("%s[%s] at %s", path, describe(it), p.Pos(in.Pos()))
-				switch {
-				case !okN:
-					uncovered = append(uncovered, site+": index range not recognised")
-				case !has:
-					uncovered = append(uncovered, fmt.Sprintf("%s: indexed up to %s but the validator enforces no length for %s", site, describe(n), path))
-				case !tf.Eq(stripConv(n), stripConv(want)):
-					uncovered = append(uncovered, fmt.Sprintf("%s: indexed up to %s but the validator enforces len = %s", site, describe(n), describe(want)))
-				case !vcall.Block().Dominates(in.Block()):
-					uncovered = append(uncovered, site+": not dominated by the validation call")
+		// index sites are collected with the in-repo helpers inlined (conversion helpers, generic or not)
+		evIn := tf.NewEngine(core.InRepo, 4).NewEval(fn)
+		evIn.Events() // evaluates every call: the activations of inlined helpers exist afterwards
+		pIn := evIn.Params[1]
+		evIn.WalkActivations(func(av *tf.Eval) {
+			// the instruction of the prover method through which this activation is reached
+			var rootSite ssa.Instruction
+			for a := av; a.Parent != nil; a = a.Parent {
+				rootSite = a.Site
+			}
+			for _, b := range av.Fn.Blocks {
+				for _, in := range b.Instrs {
+					var base, idx ssa.Value
+					switch x := in.(type) {
+					case *ssa.IndexAddr:
+						base, idx = x.X, x.Index
+					case *ssa.Index:
+						base, idx = x.X, x.Index
+					default:
+						continue
+					}
+					bt := av.TermIn(base, b)
+					path, ok := fieldPath(bt, pIn)
+					if !ok {
+						continue
+					}
+					nUse++
+					it := av.TermIn(idx, b)
+					// the index must be an induction variable 0..n-1 with n the enforced length, or the slice's own length
+					var loop *tf.Loop
+					if it.K == tf.KIndVar {
+						loop = it.Loop
+					}
+					n, okN := loopRangeZeroTo(loop)
+					want, has := G[path]
+					site := fmt.Sprintf("%s[%s] at %s", path, describe(it), p.Pos(in.Pos()))
+					at := ssa.Instruction(in.(ssa.Instruction))
+					if rootSite != nil {
+						at = rootSite
+					}
+					switch {
+					case !okN:
+						uncovered = append(uncovered, site+": index range not recognised")
+					case tf.Eq(stripConv(n), tf.Len(bt)):
+						// bounded by the length of the very slice that is indexed: in range whatever the validator says
+					case !has:
+						uncovered = append(uncovered, fmt.Sprintf("%s: indexed up to %s but the validator enforces no length for %s", site, describe(n), path))
+					case !tf.Eq(stripConv(n), stripConv(want)):
+						uncovered = append(uncovered, fmt.Sprintf("%s: indexed up to %s but the validator enforces len = %s", site, describe(n), describe(want)))
+					case !vcall.Block().Dominates(at.Block()):
+						uncovered = append(uncovered, site+": not dominated by the validation call")
+					}
 				}
 			}
-		}
+		})
 		_ = psT
 		r.Count("guarded index sites", nUse)
 		r.Check(len(uncovered) == 0, rule, name+": every index is covered by an enforced length", p.Pos(vcall.Pos()),
